@@ -9,7 +9,7 @@ from sa.index import AnalysisError, walk_no_nested
 from sa.schema import TypeRef
 from rules.setuse import parents_of
 from sa.terms import App, Const, Ref, Sym, cases, contains, dict_pairs, subterms
-from . import c02
+from . import c02, generic
 
 EXPLANATION = ("four structural necessary conditions of the round trip: (1) for every node type the keys its to_obj can emit "
                "are keys its from_obj accepts and paired conversions are inverses (hex/unhex, json dumps/loads, name/id over one "
@@ -333,8 +333,7 @@ def text_formats(ctx):
         f = repo.func(IO, q)
         fq = ctx.fq(f)
         outs = [o for o in ev.outcomes(f) if o.kind == "return"]
-        if len(outs) != 1:
-            raise AnalysisError(f"{fq}: expected one outcome")
+        outs = generic.sole_outcome(ctx, outs, f"{fq}: expected one outcome")
         o = outs[0]
         roots = {D, anchors_first} if yaml_mode else {D}
 
